@@ -3,6 +3,7 @@ package main
 import (
 	"fmt"
 	"os"
+	"runtime/pprof"
 	"sort"
 	"strconv"
 	"time"
@@ -16,6 +17,12 @@ func main() {
 		os.Exit(2)
 	}
 	os.Setenv("GOMAXPROCS", "8")
+	if pf := os.Getenv("GOSMT_CPUPROF"); pf != "" {
+		if f, err := os.Create(pf); err == nil {
+			pprof.StartCPUProfile(f)
+			defer pprof.StopCPUProfile()
+		}
+	}
 	switch os.Args[1] {
 	case "run":
 		debugRun(os.Args[2:])
